@@ -130,9 +130,39 @@ def main(argv):
   os.makedirs(os.path.join(VERIF, "evidence"), exist_ok=True)
   os.makedirs(os.path.join(VERIF, ".work"), exist_ok=True)
   ctx = multiprocessing.get_context("fork")
-  with ctx.Pool(min(jobs, len(cases))) as pool:
-    results = pool.map(_work, range(len(cases)), chunksize=1)
-  # a clause the solver left undecided while all workers were busy is retried once, alone (in this process),
+  # hard wall-clock guard: z3's own timeout is cooperative and can overshoot by a large factor on nonlinear queries; a
+  # worker that exceeds the limit is abandoned (its case becomes UNDECIDED, never a violation) and killed with the pool
+  budget = float(os.environ.get("PYVC_CASE_BUDGET_S", "300" if tier == "quick" else "1500"))
+  hard = float(os.environ.get("PYVC_HARD_LIMIT_S", budget * 2 + 180))
+
+  def _stuck(i, what):
+    c = cases[i]
+    return {"case": c.id, "prop": c.prop, "target": c.target, "name": c.name, "clauses": {}, "paths": 0, "error": None,
+            "undecided_reason": "hard wall-clock limit (%ds) exceeded %s; worker abandoned" % (hard, what),
+            "functions": {}, "lib_used": [], "notes": [], "samples": [], "cover": "ok", "replay_kind": c.replay_kind,
+            "assumptions": c.assumptions, "bounded": c.bounded, "native_probes": [], "wall_s": hard}
+
+  def _run_all(idxs, what):
+    out = {}
+    pool = ctx.Pool(min(jobs, max(1, len(idxs))))
+    try:
+      pend = [(i, pool.apply_async(_work, (i,))) for i in idxs]
+      t_start = time.time()
+      n_workers = min(jobs, max(1, len(idxs)))
+      # cases queue behind each other: the limit for the whole batch is the per-case limit times the number of rounds
+      limit = hard * (1 + (len(idxs) - 1) // n_workers)
+      for i, ar in pend:
+        try:
+          out[i] = ar.get(timeout=max(1.0, t_start + limit - time.time()))
+        except multiprocessing.TimeoutError:
+          out[i] = _stuck(i, what)
+    finally:
+      pool.terminate()
+      pool.join()
+    return out
+  res_map = _run_all(list(range(len(cases))), "in the main pass")
+  results = [res_map[i] for i in range(len(cases))]
+  # a clause the solver left undecided while all workers were busy is retried once, alone (in a fresh worker),
   # with four times the budget: solver timeouts must not flip a verdict because the machine was loaded
   retry = [i for i, r in enumerate(results)
            if not r["error"] and not r["undecided_reason"]
@@ -151,7 +181,7 @@ def main(argv):
     if any("could not be concretised" in c["reason"] for c in results[i]["clauses"].values()):
       cases[i].precise_ties = True
     try:
-      r2 = _work(i)
+      r2 = _run_all([i], "in the retry")[i]      # forked AFTER the budget change: the child sees the larger timeout
     finally:
       cases[i].timeout_ms, cases[i].precise_ties = saved
     if not r2["error"] and not r2["undecided_reason"]:
